@@ -481,7 +481,7 @@ MANIFEST = {
                    "wrapped parser's usage exactly when the vector is the help switch alone (help_only_alone_any, help_text_is_usage), the "
                    "record has exactly the labels of the parser's result type (parse_result_labels), every parser without a many around a "
                    "non-consuming parser terminates (many_terminates) and more fuel never changes a result (parse_fuel_monotone). "
-                   "'Same record as the reference' is the differential correspondence: 124 generated typed parser shapes (int, unsigned, "
+                   "'Same record as the reference' is the differential correspondence: 126 generated typed parser shapes (int, unsigned, "
                    "std::string, enum; parsers by value, by reference, shared, copied, type-erased), all argument vectors up to length 6 over "
                    "each shape's alphabet (thorough; 4 in quick), near misses of every name, numeric limits, white space, explicit contexts, "
                    "all permutations and woven repetitions of accepted vectors, the static interface of every constructed object; every "
